@@ -78,8 +78,44 @@ func Keys(src []Entity) []string {
 }
 
 type renderer struct {
-	src  []Entity
-	keys []string
+	src      []Entity
+	keys     []string
+	visiting map[*Entity]bool
+}
+
+// direct reports whether the global's only initialiser reference is rendered as a plain
+// pointer to the target (so that the target gets a use of its own: constants are uniqued).
+func (r *renderer) direct(e *Entity) bool {
+	if len(refsOf(e, "ty.global")) > 0 || len(refsOf(e, "l.baddr")) > 0 || len(refsOf(e, "g.init")) != 1 {
+		return false
+	}
+	if r.visiting[e] {
+		return false
+	}
+	t := r.findGlob(refsOf(e, "g.init")[0].To)
+	if t == nil {
+		return true
+	}
+	r.visiting[e] = true
+	defer delete(r.visiting, e)
+	// the target's type must not depend on e
+	return !r.dependsOn(t, e)
+}
+
+func (r *renderer) dependsOn(t, e *Entity) bool {
+	if t == e {
+		return true
+	}
+	if t.K != "global" || len(refsOf(t, "ty.global")) > 0 || len(refsOf(t, "l.baddr")) > 0 || len(refsOf(t, "g.init")) != 1 {
+		return false
+	}
+	if r.visiting[t] {
+		return true
+	}
+	r.visiting[t] = true
+	defer delete(r.visiting, t)
+	n := r.findGlob(refsOf(t, "g.init")[0].To)
+	return n != nil && r.dependsOn(n, e)
 }
 
 func (r *renderer) findGlob(name string) *Entity {
@@ -128,6 +164,9 @@ func attrID(n string) string {
 func (r *renderer) contentType(e *Entity) string {
 	if t := refsOf(e, "ty.global"); len(t) > 0 {
 		return tyName(t[0].To) + "*"
+	}
+	if r.direct(e) {
+		return r.ptrType(refsOf(e, "g.init")[0].To)
 	}
 	k := len(refsOf(e, "g.init")) + len(refsOf(e, "l.baddr"))
 	if k > 0 {
@@ -192,7 +231,7 @@ func (r *renderer) mdAttach(refs []Ref, sep string) string {
 
 // Render renders the source to LLVM assembly.
 func Render(src []Entity) string {
-	r := &renderer{src: src, keys: Keys(src)}
+	r := &renderer{src: src, keys: Keys(src), visiting: map[*Entity]bool{}}
 	var sb strings.Builder
 	attrSeen := map[string]int{}
 	for i := range src {
@@ -217,7 +256,9 @@ func Render(src []Entity) string {
 		case "global":
 			ct := r.contentType(e)
 			var init string
-			if len(refsOf(e, "ty.global")) > 0 || ct == "i8*" {
+			if r.direct(e) {
+				init = gname(refsOf(e, "g.init")[0].To)
+			} else if len(refsOf(e, "ty.global")) > 0 || ct == "i8*" {
 				init = "null"
 			} else {
 				var elems []string
@@ -400,7 +441,7 @@ func (r *renderer) renderInst(l *Local) string {
 		case "g.operand":
 			return fmt.Sprintf("%sptrtoint %s %s to i32%s", lhs, r.ptrType(x.To), gname(x.To), md)
 		case "ty.inst":
-			return fmt.Sprintf("%salloca %s%s", lhs, tyName(x.To), md)
+			return fmt.Sprintf("%salloca %s*%s", lhs, tyName(x.To), md)
 		case "l.baddr":
 			return fmt.Sprintf("%sptrtoint i8* blockaddress(%s, %%%s) to i32%s", lhs, gname(x.To), x.Aux, md)
 		}
